@@ -151,6 +151,30 @@ fn pair(i: usize, a: &[u8], b: &[u8], sa: &Slot, sb: &Slot) -> Value {
     if let Ok(s) = std::str::from_utf8(sb.put(b)) {
         op!(o, i, "match_up_to_str", res(guarded(|| ua.match_up_to_str(s)), |n| vec![1, n as i64]));
         op!(o, i, "path_join_fmt", res(guarded(|| ua.path_join_fmt(format_args!("{s}"))), |s| some_bytes(s.as_slice())));
+        // the same text handed over in two pieces, cut at every character boundary: the answer is a
+        // function of the text, not of how the formatting machinery fragments it.  Reported: the
+        // first answer that differs from the one-piece answer (else the one-piece answer).
+        op!(o, i, "path_join_fmt_split", {
+            let whole = guarded(|| ua.path_join_fmt(format_args!("{s}")).as_slice().to_vec());
+            let mut rep = whole.clone();
+            for k in 0..=s.len() {
+                if !s.is_char_boundary(k) {
+                    continue;
+                }
+                let (s1, s2) = s.split_at(k);
+                let r = guarded(|| ua.path_join_fmt(format_args!("{s1}{s2}")).as_slice().to_vec());
+                if r != whole {
+                    rep = r;
+                    break;
+                }
+                let r = guarded(|| ua.path_join_fmt(format_args!("{}{}{}", s1, "", s2)).as_slice().to_vec());
+                if r != whole {
+                    rep = r;
+                    break;
+                }
+            }
+            res(rep, |v| some_bytes(&v))
+        });
     }
     Value::Object(o)
 }
@@ -182,6 +206,22 @@ fn ctor(i: usize, b: &[u8], sb: &Slot) -> Value {
         op!(o, i, "string_try_from_string", string_res(guarded(|| UnixString::try_from_string(s.to_string()))));
         op!(o, i, "string_from_str", string_res(guarded(|| s.parse::<UnixString>())));
         op!(o, i, "from_format", res(guarded(|| UnixString::from_format(format_args!("{s}"))), |s| some_bytes(s.as_slice())));
+        op!(o, i, "from_format_split", {
+            let whole = guarded(|| UnixString::from_format(format_args!("{s}")).as_slice().to_vec());
+            let mut rep = whole.clone();
+            for k in 0..=s.len() {
+                if !s.is_char_boundary(k) {
+                    continue;
+                }
+                let (s1, s2) = s.split_at(k);
+                let r = guarded(|| UnixString::from_format(format_args!("{s1}{s2}")).as_slice().to_vec());
+                if r != whole {
+                    rep = r;
+                    break;
+                }
+            }
+            res(rep, |v| some_bytes(&v))
+        });
         op!(o, i, "from_str_checked", res(guarded(|| UnixStr::from_str_checked(s).as_slice().to_vec()), |s| some_bytes(&s)));
     }
     Value::Object(o)
